@@ -11,6 +11,9 @@ import (
 	"iocvet/internal/core"
 )
 
+// seam resolves invokes through internal seams (set once the program is loaded).
+var seam func(*ssa.CallCommon) *ssa.Function
+
 // reachesCall: fn reaches a call matching pred through static callees of its own package, function literals,
 // function / method values it creates (bound-method wrappers included).
 func reachesCall(fn *ssa.Function, pred func(*ssa.CallCommon) bool, seen map[*ssa.Function]bool) bool {
@@ -29,8 +32,15 @@ func reachesCall(fn *ssa.Function, pred func(*ssa.CallCommon) bool, seen map[*ss
 	}
 	for _, b := range fn.Blocks {
 		for _, in := range b.Instrs {
-			if ci, ok := in.(ssa.CallInstruction); ok && pred(ci.Common()) {
-				return true
+			if ci, ok := in.(ssa.CallInstruction); ok {
+				if pred(ci.Common()) {
+					return true
+				}
+				if seam != nil {
+					if g := seam(ci.Common()); g != nil && reachesCall(g, pred, seen) {
+						return true
+					}
+				}
 			}
 			var ops []*ssa.Value
 			for _, op := range in.Operands(ops) {
@@ -71,6 +81,11 @@ func lowestReaching(c *core.Ctx, pkgRel string, preds ...func(*ssa.CallCommon) b
 		lower := false
 		for _, b := range fn.Blocks {
 			for _, in := range b.Instrs {
+				if ci, ok := in.(ssa.CallInstruction); ok && seam != nil {
+					if g := seam(ci.Common()); g != nil && g != fn && all(g) {
+						lower = true
+					}
+				}
 				var ops []*ssa.Value
 				for _, op := range in.Operands(ops) {
 					if *op == nil {
